@@ -134,6 +134,9 @@ func declared(src string) (pkg string, types, funcs, assigned []string, err erro
 				}
 				continue
 			}
+			if !ast.IsExported(x.Name.Name) {
+				continue // generated helper functions
+			}
 			funcs = append(funcs, x.Name.Name)
 		}
 	}
